@@ -186,3 +186,19 @@ func (p *Prog) ApplyAnchors(path string) []string {
 	}
 	return notes
 }
+
+// BaseName is f's own name as the rules know it (the recorded name for a renamed function).
+func BaseName(f *ssa.Function) string {
+	if f == nil {
+		return ""
+	}
+	if a, ok := aliases[f]; ok {
+		for i := len(a) - 1; i >= 0; i-- {
+			if a[i] == '.' {
+				return a[i+1:]
+			}
+		}
+		return a
+	}
+	return f.Name()
+}
